@@ -157,6 +157,17 @@ func (s *scn) templates(r *sim.Rand) map[string][]*pb.Arg {
 		"GovStrategy.UpdateProposalStrategy": {S("service_mgr"), S("SimpleMajority"), S("a >= 1"), S("reason")},
 		"Governance.Vote":                    {S(prop), S("approve"), S("reason")},
 		"Governance.WithdrawProposal":        {S(prop), S("reason")},
+		// the plain lifecycle operations on live objects (an argument pool of some eighty strings almost never puts a live id
+		// into the right position of the right method)
+		"AppchainManager.FreezeAppchain":   {S(c.id), S("reason")},
+		"AppchainManager.ActivateAppchain": {S(c.id), S("reason")},
+		"AppchainManager.LogoutAppchain":   {S(c.id), S("reason")},
+		"ServiceManager.FreezeService":     {S(c.id + ":" + sv.id), S("reason")},
+		"ServiceManager.ActivateService":   {S(c.id + ":" + sv.id), S("reason")},
+		"ServiceManager.LogoutService":     {S(c.id + ":" + sv.id), S("reason")},
+		"RoleManager.FreezeRole":           {S(s.cfg.World.adminKey(r.Intn(s.cfg.World.Admins)).Addr.String()), S("reason")},
+		"RoleManager.ActivateRole":         {S(s.cfg.World.adminKey(r.Intn(s.cfg.World.Admins)).Addr.String()), S("reason")},
+		"RoleManager.LogoutRole":           {S(s.cfg.World.adminKey(r.Intn(s.cfg.World.Admins)).Addr.String()), S("reason")},
 	}
 }
 
